@@ -66,7 +66,7 @@ def viol(ctx, clause, what, case):
 def make_params(rng):
     probs = rng.choice([(0.3, 0.1, 0.6), (0.0, 0.0, 1.0), (1.0, 0.0, 0.0), (0.0, 1.0, 0.0), (0.5, 0.5, 0.0), (0.25, 0.25, 0.5), (0.0, 0.5, 0.5)])
     tps = rng.choice([1, 10, 100, 1000, 100000])
-    return {"waiting_seconds_mean": rng.choice([0.0004, 0.05, 0.5, 2.0, 10.0, 60.0, 3, 4, 5]) if rng.random() < 0.7 else rng.choice([3, 4, 5, 6]) / rng.choice([1, 10, 100]), "num_pipelines": rng.randint(1, 5),
+    return {"waiting_seconds_mean": rng.choice([0.0004, 0.05, 0.5, 2.0, 10.0, 60.0, 3, 4, 5]) if rng.random() < 0.7 else rng.choice([3, 4, 5, 6]) / rng.choice([1, 10, 100]), "num_pipelines": rng.choice([1, 2, 3, 4, 5, 5, 11, 12, 25]),
             "num_operators": rng.choice([1, 2, 5, 8, 20, 40]), "num_segs": 1, "cpu_io_ratio": rng.choice([0.0, 0.25, 0.5, 1.0]),
             "random_seed": rng.randint(0, 10 ** 6), "interactive_prob": probs[0], "query_prob": probs[1], "batch_prob": probs[2],
             "ticks_per_second": tps}
